@@ -107,7 +107,7 @@ func genC12(t *testing.T) {
 		if r.IntN(4) == 0 {
 			ni = 6 + r.IntN(12) // wide joins
 		}
-		c := &caseT{Cap: r.IntN(5), Inputs: [][]int{}, OneProducer: r.IntN(4) == 0}
+		c := &caseT{Cap: wide(r, 5, 16, 64), Inputs: [][]int{}, OneProducer: r.IntN(4) == 0}
 		var seqs [][]string
 		total := 0
 		for k := 0; k < ni; k++ {
